@@ -516,8 +516,8 @@ impl E2Run for Cksum {
 
     fn budget(&self, tier: &Tier) -> (u64, u64) {
         match tier {
-            Tier::Quick => (3_000, 60),
-            Tier::Thorough => (500_000, 3000),
+            Tier::Quick => (60_000, 50),
+            Tier::Thorough => (4_000_000, 3000),
         }
     }
 
